@@ -344,6 +344,10 @@ class Gen:
             self.predict(m0, d1, ignore=True)
             self.predict(m0, dm, ignore=True)
             self.predict(m0, ds[0], ignore=True)
+            if self.models[m0]["fam"] != "caltrack":
+                # every crash point of one short predict
+                self.emit("ABORT_SWEEP", m=m0, d=d1, exc=r.choice(["MemoryError", "KeyboardInterrupt"]))
+                self.cost += 1.5
             self.emit("SCRIBBLE_PRED", m=m0)
             self.emit("SCRIBBLE_DATA", d=ds[0])
             self.predict(m0, ds[0], ignore=True)
@@ -469,11 +473,11 @@ class Gen:
         weights = {
             "make_reporting": 3, "make_baseline": 1.2, "fit": 1.6, "fit_shared": 0.5, "refit_key": 0.4, "refit_other": 0.5, "predict": 7,
             "predict_odd": 0.6, "pair": 1.0, "store": 1.6, "load": 1.6, "store_load_predict": 0.8, "crash": 0.5,
-            "scribble_data": 0.5, "scribble_pred": 0.5, "inspect": 0.4, "new_model": 0.25, "fault": 1.6,
+            "scribble_data": 0.5, "scribble_pred": 0.5, "abort_sweep": 0.15, "inspect": 0.4, "new_model": 0.25, "fault": 1.6,
         }
         mult = {
             "C01": {"store": 2.5, "load": 2.5, "store_load_predict": 4, "crash": 2.5, "fit": 1.3, "refit_other": 2},
-            "C02": {"predict": 1.4, "refit_other": 2, "scribble_data": 2, "scribble_pred": 2, "fit_shared": 3, "inspect": 2,
+            "C02": {"predict": 1.4, "refit_other": 2, "abort_sweep": 5, "scribble_data": 2, "scribble_pred": 2, "fit_shared": 3, "inspect": 2,
                     "make_reporting": 1.3},
             "C03": {"refit_key": 9, "refit_other": 2, "fit": 1.5, "fault": 2.5, "crash": 1.5, "predict": 0.6},
             "C04": {"new_model": 4, "predict_odd": 5, "make_baseline": 2.5, "fit": 2, "store_load_predict": 2,
@@ -660,6 +664,15 @@ class Gen:
                     if not (fam == "caltrack" and self.caltrack_used):
                         bb = self.make_data(r.choice(self.pool[fam]))
                         self.fit(fam, bb)
+            elif op == "abort_sweep":
+                if not fitted or not sw["faults"]["abort"]:
+                    continue
+                ms = r.choice(fitted)
+                if self.models[ms]["fam"] == "caltrack":
+                    continue
+                d = self.make_data(self._reporting(self.models[ms]["base"], span=r.choice(["day", "week"])))
+                self.emit("ABORT_SWEEP", m=ms, d=d, exc=r.choice(["MemoryError", "KeyboardInterrupt"]))
+                self.cost += 1.5
             elif op == "scribble_data":
                 if self.data:
                     self.emit("SCRIBBLE_DATA", d=r.choice(sorted(self.data)))
